@@ -306,6 +306,21 @@ THrefFromFile ==
                                         diff |-> [href |-> [exp |-> exp.s, got |-> Ev.r]]]) THEN 1 ELSE 1)
   /\ l' = l + 1 /\ UNCHANGED << objs, limit, nunspec >>
 
+\* to_string() of slot o: the diagnostic dump of both C++ types must be the dump of the expected record
+\* (ada::url exposes its record fields directly here: host without port, query / fragment without delimiter)
+TToStr ==
+  /\ IsEvent("tostr")
+  /\ LET ob == objs[Ev.o]
+         bad == IF ob.unspec THEN {}
+                ELSE IF ~ob.valid THEN {w \in {"a", "u"} : Ev[w] # TS_Null}
+                ELSE {w \in {"a", "u"} : Ev[w] # (IF w = "a" THEN AggToString(ob.url) ELSE UrlToString(ob.url))}
+     IN ndiag' = ndiag + (IF bad = {} THEN 0
+                          ELSE IF Emit([l |-> l, who |-> (IF "a" \in bad THEN "a" ELSE "u"), kind |-> "to-string", props |-> <<"C04", "C07">>,
+                                        diff |-> [w \in bad |-> [exp |-> IF ~ob.valid THEN TS_Null
+                                                                         ELSE IF w = "a" THEN AggToString(ob.url) ELSE UrlToString(ob.url),
+                                                                 got |-> Ev[w]]]]) THEN 1 ELSE 1)
+  /\ l' = l + 1 /\ UNCHANGED << objs, limit, nunspec >>
+
 \* a setter made while another thread flips the limit between L1 and L2: the resulting href must be the
 \* old one or the Standard's result, a call that reports failure must have left the object unchanged, a
 \* result that fits under both limits (with an argument that fits) must have been applied, and a result
@@ -337,7 +352,7 @@ TCrashed ==
   /\ l' = l + 1 /\ UNCHANGED << objs, limit, nunspec >>
 
 Next == TReset \/ TLimit \/ TParse \/ TSet \/ TCopy \/ TObserve \/ TReparse \/ TCanParse
-        \/ TVec \/ TSetVec \/ TCrashed \/ TCLimits \/ TCParse \/ TCSet \/ THrefFromFile
+        \/ TVec \/ TSetVec \/ TCrashed \/ TCLimits \/ TCParse \/ TCSet \/ THrefFromFile \/ TToStr
 
 Spec == Init /\ [][Next]_vars
 
